@@ -1,14 +1,22 @@
 #!/bin/bash
-# Runs every seeded change against the quick check of the property it breaks
-# (and optional extra properties) and writes /verif/seeded/MATRIX.txt.
+# Runs every seeded change (or those given as arguments) against the check of
+# the property it breaks and appends to /verif/seeded/MATRIX.txt:
+#   <seed> <property> <tier> exit=<code> :: <first violation / known-finding line>
 # /repo is modified while this runs: do not run other checks concurrently.
+# env: TIER (quick), PROP (override the property whose check is run)
 cd /verif
+tier=${TIER:-quick}
 out=/verif/seeded/MATRIX.txt
-: > $out.tmp
-for d in /verif/seeded/C*/; do
-  id=$(basename $d); prop=${id:0:3}
-  res=$(SEED_LINES=1 SEED_TIMEOUT=900 tools/try_seed.sh $id $prop ${1:-quick} 2>&1 | tail -1)
-  first=$(cd /repo && git apply /verif/seeded/$id/patch.diff && cd /verif && ./check $prop ${1:-quick} 2>&1 | grep -m1 -A1 "^VIOLATION" | tail -1 | cut -c1-200; git -C /repo checkout -- .)
-  echo "$id $prop $res :: $first" >> $out.tmp
+seeds="$@"
+[ -z "$seeds" ] && seeds=$(ls /verif/seeded | grep '^C')
+for id in $seeds; do
+  prop=${PROP:-${id:0:3}}
+  [ -f /verif/seeded/$id/patch.diff ] || continue
+  if [ -n "$(git -C /repo status --porcelain)" ]; then echo "/repo is dirty, stopping" >> $out; exit 2; fi
+  if ! git -C /repo apply /verif/seeded/$id/patch.diff 2>/dev/null; then echo "$id $prop $tier PATCH-DOES-NOT-APPLY" >> $out; continue; fi
+  log=$(timeout 1500 ./check $prop $tier 2>&1); code=$?
+  git -C /repo checkout -- .
+  first=$(echo "$log" | grep -m1 -A1 "^VIOLATION" | tail -1 | sed 's/^ *//' | cut -c1-220)
+  [ -z "$first" ] && first=$(echo "$log" | grep -m1 -E "CHECK-ERROR|KNOWN-FINDING" | cut -c1-200)
+  echo "$id $prop $tier exit=$code :: $first" >> $out
 done
-mv $out.tmp $out
